@@ -122,13 +122,31 @@ def run(res, proof):
     iw.reset()
     # ---- 1b. two distinct subclasses with the SAME module and qualified name (a class factory called twice): own registries
     from dsdobjects import base_classes as _bc, clear_singletons as _clear, SingletonError as _SE
-    for kind, Base in (('dom', _bc.DomainS), ('cplx', _bc.ComplexS), ('strand', _bc.StrandS)):
+    def _two_by_factory(Base):
         def factory():
             return type('Twin', (Base,), {})
-        K1, K2 = factory(), factory()
+        return factory(), factory(), 'two classes created by type("Twin", (%s,), {}) called twice' % Base.__name__
+    def _copy_of_namespace(Base):
+        # what class decorators that rebuild a class do (dataclass(slots=True), attrs): the same metaclass called with a COPY of
+        # the original's namespace - the copy is a class of its own, with registries of its own
+        class Mine(Base):
+            pass
+        twin = type(Mine)(Mine.__name__, Mine.__bases__, dict(Mine.__dict__))
+        return Mine, twin, 'class Mine(%s) and type(Mine)(name, bases, dict(Mine.__dict__))' % Base.__name__
+    def _copy_after_use(Base):
+        class Mine(Base):
+            pass
+        _keep.append(Mine('u', 4) if Base is _bc.DomainS else None)          # the original already holds an object when it is copied
+        twin = type(Mine)('MineToo', Mine.__bases__, dict(Mine.__dict__))
+        return Mine, twin, 'class Mine(%s), used, then rebuilt from a copy of its namespace under another name' % Base.__name__
+    _keep = []
+    for kind, Base, maker in [(k, B, m) for (k, B) in (('dom', _bc.DomainS), ('cplx', _bc.ComplexS), ('strand', _bc.StrandS))
+                              for m in (_two_by_factory, _copy_of_namespace, _copy_after_use)]:
+        del _keep[:]
         _clear(_bc.DomainS)
+        K1, K2, how = maker(Base)
         da, db = _bc.DomainS('a', 5), _bc.DomainS('b', 5)
-        desc = {'scenario': 'two classes created by type("Twin", (%s,), {}) called twice' % Base.__name__}
+        desc = {'scenario': how}
         res.evaluations += 1
         try:
             if kind == 'dom':
@@ -140,7 +158,9 @@ def run(res, proof):
             else:
                 x = K1([da, db], name='S'); y = K2([db], name='S')
                 ok = x is not y and type(x) is K1 and type(y) is K2
-            if not ok or K1._instanceNames is K2._instanceNames or len(K1._instanceNames) != 1 or len(K2._instanceNames) != 1:
+            n1 = len([n for n in K1._instanceNames if n != 'u'])
+            if not ok or K1._instanceNames is K2._instanceNames or n1 != 1 or len([n for n in K2._instanceNames if n != 'u']) != 1 \
+                    or ('u' in K2._instanceNames and K1 is not K2):
                 res.violation('same-name-sibling-classes-share-registry:' + kind, desc, 'objects alias or registries shared', 'independent registries')
             del x, y
         except _SE as e:
@@ -148,6 +168,37 @@ def run(res, proof):
             e = None
         del da, db
         res.count('same_name_sibling_scenarios')
+    # ---- 1c. clearing the registry of ONE class (clear_singletons(cls)) is not a statement about any other class: objects of a
+    #          subclass, sub-subclass or of the base class that the caller holds stay the registered singletons of their class
+    for Base, mk in ((_bc.DomainS, lambda K: K('w', 6)), (_bc.ComplexS, lambda K: K([_bc.DomainS('a', 5)], list('.'), name='W')),
+                     (_bc.StrandS, lambda K: K([_bc.DomainS('a', 5), _bc.DomainS('b', 5)], name='W'))):
+        class Child(Base):
+            pass
+        class GrandChild(Child):
+            pass
+        for cleared, holders in ((Base, (Child, GrandChild)), (Child, (Base, GrandChild)), (GrandChild, (Base, Child))):
+            for K in (Base, Child, GrandChild):
+                _clear(K)
+            held = {K: mk(K) for K in holders}
+            _clear(cleared)
+            res.evaluations += 1
+            res.count('clear_one_class_scenarios')
+            lost = [K.__name__ for K, o in held.items() if K._instanceNames.get(o.name) is not o]
+            again = []
+            for K, o in held.items():
+                try:
+                    if mk(K) is not o:
+                        again.append(K.__name__)
+                except Exception as e:
+                    again.append('%s raises %s' % (K.__name__, type(e).__name__)); e = None
+            if lost or again:
+                res.violation('clear-of-one-class-touches-another', {'scenario': 'objects of %s held; clear_singletons(%s)' % (', '.join(K.__name__ for K in holders), cleared.__name__)},
+                              'no longer registered: %s; the same request no longer returns the held object: %s' % (lost, again),
+                              'every held object of another class is still the registered singleton of its class')
+            del held
+        for K in (Base, Child, GrandChild):
+            _clear(K)
+    _clear(_bc.DomainS)
     # ---- 2. reader slots: all 32 assignments
     import dsdobjects
     from dsdobjects import objectio, base_classes as bc, clear_singletons
